@@ -31,7 +31,7 @@ for src in $ROOT/harness/*.cpp; do
   name=$(basename $src .cpp)
   out=$B/harness/$name
   # rebuild when the source or any library is newer
-  if [ ! -x $out ] || [ $src -nt $out ] || [ -n "$(find $B/lib -name '*.a' -newer $out 2>/dev/null | head -1)" ] || [ -n "$(find $ROOT/harness -name '*.h' -newer $out 2>/dev/null | head -1)" ]; then
+  if [ ! -x $out ] || [ $src -nt $out ] || [ -n "$(find $B/lib -name '*.a' -newer $out 2>/dev/null | head -1)" ] || [ -n "$(find $ROOT/harness \( -name "*.h" -o -name "*.inc" \) -newer $out 2>/dev/null | head -1)" ]; then
     $CXX $FLAGS $src $LIBS -o $out 2> $out.log || { cat $out.log; exit 2; }
   fi
 done
